@@ -546,6 +546,27 @@ class Node:
 
     # --------------------------------------------------------------------------
 
+    def _calc_insert_pos(self, before: Optional[Node | bool | int]) -> int | None:
+        """Validate `before` and return the child list index (None: append).
+
+        This is called *before* the tree is modified, so an invalid argument
+        does not leave a half-added or half-moved node behind.
+        """
+        if before is None:
+            return None
+        if before is True:
+            return 0  # prepend
+        if isinstance(before, int):
+            return before
+        if isinstance(before, Node):
+            if before._parent is not self:
+                raise ValueError(
+                    f"`before=node` ({before._parent}) "
+                    f"must be a child of target node ({self})"
+                )
+            return Node.get_index(before)
+        raise ValueError(f"Invalid `before` argument: {before!r}")
+
     def add_child(
         self,
         child: Node | Tree | Any,
@@ -613,6 +634,9 @@ class Node:
                 self.add_child(n, before=before, deep=deep)
             return n  # need to return a node
 
+        # Validate the position before the new node is created and registered
+        insert_pos = self._calc_insert_pos(before)
+
         source_node = None
         factory = self._tree._node_factory
         if isinstance(child, Node):
@@ -641,25 +665,13 @@ class Node:
         else:
             node = factory(child, parent=self, data_id=data_id, node_id=node_id)
 
-        if before is True:
-            before = 0  # prepend
-
         children = self._children
         if children is None:
-            assert before in (None, True, int, False)
             self._children = [node]
-        elif isinstance(before, int):
-            children.insert(before, node)
-        elif before:
-            if before._parent is not self:
-                raise ValueError(
-                    f"`before=node` ({before._parent}) "
-                    f"must be a child of target node ({self})"
-                )
-            idx = children.index(before)  # raises ValueError
-            children.insert(idx, node)
-        else:
+        elif insert_pos is None:
             children.append(node)
+        else:
+            children.insert(insert_pos, node)
 
         if deep and source_node:
             node._add_from(source_node)
